@@ -1625,7 +1625,7 @@ func (p *parser) primaryExpression() (Node, error) {
 			return nil, err
 		}
 
-		child, err := p.expression(precedence(lexer.AddToken))
+		child, err := p.expression(precedence(lexer.MultiplyToken))
 		if err != nil {
 			return nil, err
 		}
@@ -1851,7 +1851,7 @@ func (p *parser) primaryExpression() (Node, error) {
 			return nil, err
 		}
 
-		child, err := p.expression(precedence(lexer.SubtractToken))
+		child, err := p.expression(precedence(lexer.MultiplyToken))
 		if err != nil {
 			return nil, err
 		}
